@@ -2,7 +2,7 @@
    occupancies, limits, tie patterns, both directions. *)
 From Coq Require Import ZArith List Bool Arith Permutation.
 From HV Require Import Ord ListX Sprout SproutFacts Select SelectFacts FilterFacts.
-From HV Require Import Tree DriverPrim SproutPrim GenEquivStops GenLevelLimit GenDemeLimit FilterDict GenEquivLevelLimit GenEquivDemeLimit.
+From HV Require Import Tree DriverPrim SproutPrim GenEquivStops GenLevelLimit GenDemeLimit FilterDict GenEquivLevelLimit GenEquivDemeLimit Driver GenGenerators GenEquivGenerators GenFar GenEquivFar GenMechanism GenEquivMechanism Far.
 Import ListNotations.
 
 (* BestPerDeme: exactly the (first) best of the deme's current population *)
@@ -70,3 +70,46 @@ Theorem C10_translated_LevelLimit c fuel L cm s :
   answers (gen_LevelLimit c fuel L cm) s (level_limit (maximize c) L (lvl_at (demes (ms s))) (active_at (demes (ms s))) cm).
 Proof. exact (LevelLimit_ok c fuel L cm s). Qed.
 Print Assumptions C10_translated_LevelLimit.
+
+(* ---------------------------------------------------------------- the candidate generators TRANSLATED from the current
+   pyhms/sprout/sprout_generators.py (Gen/GenGenerators.v): candidates come only from the CURRENT populations of ACTIVE NON-LEAF demes
+   (the local-method generator additionally offers the best individual of a just-finished deme of the last-but-one level), BestPerDeme
+   proposes exactly the deme's current best, no parent is named twice *)
+Theorem C10_translated_BestPerDeme (cur_best : nat -> Z) c fuel s :
+  answers (gen_BestPerDeme cur_best c fuel) s (map (fun d => (d, [cur_best d])) (active_non_leaves c (demes (ms s)))).
+Proof. exact (BestPerDeme_ok cur_best c fuel s). Qed.
+Print Assumptions C10_translated_BestPerDeme.
+Theorem C10_translated_NBC_Generator (nbc_cluster : nat -> list Z) c fuel s :
+  answers (gen_NBC_Generator nbc_cluster c fuel) s (map (fun d => (d, nbc_cluster d)) (active_non_leaves c (demes (ms s)))).
+Proof. exact (NBC_Generator_ok nbc_cluster c fuel s). Qed.
+Print Assumptions C10_translated_NBC_Generator.
+Theorem C10_translated_NBCGeneratorWithLocalMethod (hist_best : nat -> Z) (nbc_cluster : nat -> list Z) c fuel s :
+  answers (gen_NBCGeneratorWithLocalMethod hist_best nbc_cluster c fuel) s
+          (map (fun d => (d, nbc_cluster d)) (flat_map (fun l => filter (fun d => d_active (dnth d (demes (ms s)))) (level_ids (demes (ms s)) l)) (seq 0 (height c - 2)))
+           ++ map (fun d => (d, [hist_best d])) (filter (just_finished (ms s)) (level_ids (demes (ms s)) (height c - 2)))).
+Proof. exact (NBCGeneratorWithLocalMethod_ok hist_best nbc_cluster c fuel s). Qed.
+Print Assumptions C10_translated_NBCGeneratorWithLocalMethod.
+Theorem C10_translated_generator_parents (val : nat -> list Z) c ds pk :
+  In pk (map (fun d => (d, val d)) (active_non_leaves c ds)) ->
+  fst pk < length ds /\ d_active (dnth (fst pk) ds) = true /\ S (d_lvl (dnth (fst pk) ds)) < height c.
+Proof. exact (generator_parents val c ds pk). Qed.
+Print Assumptions C10_translated_generator_parents.
+Theorem C10_translated_generator_parents_distinct (val : nat -> list Z) c ds : NoDup (cm_keys (map (fun d => (d, val d)) (active_non_leaves c ds))).
+Proof. exact (generator_parents_distinct val c ds). Qed.
+Print Assumptions C10_translated_generator_parents_distinct.
+
+(* ---------------------------------------------------------------- SproutMechanism.get_seeds TRANSLATED from the current
+   pyhms/sprout/sprout_mechanisms.py (Gen/GenMechanism.v), instantiated with the translated BestPerDeme, FarEnough and LevelLimit
+   (= get_simple_sprout): the seeds it returns are the non-empty entries of level_limit applied to the far-enough current bests of the
+   active non-leaf demes — exactly the dictionary the machine's sprouting primitive p_get_seeds works with *)
+Theorem C10_translated_simple_sprout_seeds (cur_best : nat -> Z) (dist : Z -> nat -> Z) c fuel thr L s :
+  answers (gen_get_seeds simple_filter (gen_BestPerDeme cur_best c fuel) (simple_apply dist c fuel) [FFar thr] [FLevelLimit L]) s
+          (nonempty (level_limit (maximize c) L (lvl_at (demes (ms s))) (active_at (demes (ms s))) (simple_cands cur_best dist c thr (ms s)))).
+Proof. exact (simple_sprout_seeds cur_best dist c fuel thr L s). Qed.
+Print Assumptions C10_translated_simple_sprout_seeds.
+Theorem C10_translated_get_seeds_chain (F : Type) (generator : D cmap) (apply_filter : F -> cmap -> D cmap) (app : F -> st -> cmap -> cmap) :
+  (forall f cm s, answers (apply_filter f cm) s (app f (ms s) cm)) -> forall dchain tchain cm0 s, answers generator s cm0 ->
+  answers (gen_get_seeds F generator apply_filter dchain tchain) s
+          (keep_nonempty (fold_left (fun cm f => app f (ms s) cm) tchain (fold_left (fun cm f => app f (ms s) cm) dchain cm0))).
+Proof. exact (get_seeds_ok F generator apply_filter app). Qed.
+Print Assumptions C10_translated_get_seeds_chain.
